@@ -29,7 +29,10 @@ def cases(tier, seed, ctx=None):
                [G.SetStatus(404, b"N")], [G.SetHeaders([(b"S", b"a"), (b"S", b"b")])],
                # the length of the header block depends on every part of it: status codes of 1, 2, 4 and 5 digits, long and empty reasons
                [G.SetStatus(7, b"SEVEN")], [G.SetStatus(99)], [G.SetStatus(1000, b"")], [G.SetStatus(12345, b"A LONG REASON PHRASE " * 3)],
-               [G.SetStatus(0)], [G.SetStatus(200, b"")]]
+               [G.SetStatus(0)], [G.SetStatus(200, b"")],
+               # header blocks whose byte length differs from their length in characters
+               [G.SetHeader(b"Content-Disposition", "attachment; filename=\"r\u00e9sum\u00e9 \u2013 M\u00fcller.pdf\"".encode())], [G.SetStatus(200, "\u041e\u041a".encode())],
+               [G.SetHeader("X-\u00e9".encode(), b"1"), G.SetHeader(b"A", "\u4e2d\u6587".encode())]]
     # H for "HTTP/1.0 200 OK\r\n\r\n" is 19
     for hs in hdrsets:
         head_ops = [G.Construct] + [G.App(a) for a in hs]
